@@ -294,7 +294,10 @@ def run_segment(R, maxlen, level):
                     break
                 m = m2
                 if er7(s) != m.enc():
-                    R.fail('C09:model-mismatch:' + ';'.join(label), 'C09:model-mismatch:%s' % name,
+                    # (a write that follows a read of the same chain is C11's: "the first write materialises exactly
+                    #  the path read"; any other mismatch is C09's)
+                    pfx = 'C11:write-after-read' if name.startswith('read ') else 'C09:model-mismatch'
+                    R.fail(pfx + ':' + ';'.join(label), '%s:%s' % (pfx, name),
                            'after %s the segment encodes %r, the ordered-list model %r' % (label, er7(s), m.enc()), replay(label, level))
                     ok = False
                     break
@@ -447,7 +450,8 @@ def run_message(R, maxlen, level):
                 model = m2
                 got = [(nm, t) for nm, t in now][1:]
                 if got != model[1:]:
-                    R.fail('C09:msg-model-mismatch:' + ';'.join(label), 'C09:msg-model-mismatch:%s' % name,
+                    pfx = 'C11:msg-write-after-read' if name.startswith('read ') else 'C09:msg-model-mismatch'
+                    R.fail(pfx + ':' + ';'.join(label), '%s:%s' % (pfx, name),
                            'after %s the message holds %r, the ordered-list model %r' % (label, got, model[1:]))
                     ok = False
                     break
